@@ -21,6 +21,27 @@ type SpecEnv struct {
 	at    *ssa.BasicBlock
 	bound map[string]*Val
 	depth int
+	facts *[]string
+	uses  *[]idxUse
+}
+
+type idxUse struct {
+	ptr  string
+	k    int64
+	idx  string
+	addr string
+}
+
+// load reads memory in a spec context and records the well-formedness of the loaded value
+// (heap well-typedness is a global invariant of Go states).
+func (env *SpecEnv) load(addr string, t types.Type, comp string) *Val {
+	v := env.e.loadAt(env.cur, addr, t, comp)
+	if env.facts != nil {
+		if f := env.e.wf(v, env.cur.alloc); f != "true" {
+			*env.facts = append(*env.facts, f)
+		}
+	}
+	return v
 }
 
 type specErr struct{ msg string }
@@ -42,11 +63,27 @@ func (e *Enc) specEnv(fr *Frame, st *State, at *ssa.BasicBlock) *SpecEnv {
 }
 
 func (e *Enc) evalBool(x *SExpr, env *SpecEnv) string {
-	v := env.eval(x)
+	var facts []string
+	n := *env
+	n.facts = &facts
+	v := n.eval(x)
 	if v.K != KBool {
 		env.fail("expected boolean: %s", x)
 	}
+	e.lastFacts = dedup(facts)
 	return v.S[0]
+}
+
+func dedup(xs []string) []string {
+	seen := map[string]bool{}
+	var out []string
+	for _, x := range xs {
+		if !seen[x] {
+			seen[x] = true
+			out = append(out, x)
+		}
+	}
+	return out
 }
 
 func (env *SpecEnv) with(cur *State) *SpecEnv {
@@ -114,7 +151,7 @@ func (env *SpecEnv) lookupLocal(name string) *Val {
 			v := e.val(fr, env.cur, best.X)
 			if best.IsAddr {
 				t := derefType(best.X.Type())
-				return e.loadAt(env.cur, v.term(), t, v.Comp)
+				return env.load(v.term(), t, v.Comp)
 			}
 			return v
 		}
@@ -130,7 +167,7 @@ func (env *SpecEnv) lookupLocal(name string) *Val {
 			if v, ok := fr.vals[fv]; ok {
 				t := derefType(fv.Type())
 				if t != nil {
-					return e.loadAt(env.cur, v.term(), t, v.Comp)
+					return env.load(v.term(), t, v.Comp)
 				}
 				return v
 			}
@@ -175,7 +212,7 @@ func (env *SpecEnv) pkgScopeLookup(pkgPath, name string) *Val {
 			return e.sentinelVal(env.cur, g)
 		}
 		addr := e.w.globalAddr(g)
-		return e.loadAt(env.cur, addr, o.Type(), "")
+		return env.load(addr, o.Type(), "")
 	}
 	return nil
 }
@@ -285,7 +322,7 @@ func (env *SpecEnv) eval(x *SExpr) *Val {
 			if r == nil {
 				env.fail("cannot dereference %s", x)
 			}
-			return e.loadAt(env.cur, r.addr, r.T, r.comp)
+			return env.load(r.addr, r.T, r.comp)
 		}
 	case "bin":
 		return env.evalBin(x)
@@ -305,7 +342,7 @@ func (env *SpecEnv) eval(x *SExpr) *Val {
 			}
 		}
 		if r := env.ref(x); r != nil {
-			return e.loadAt(env.cur, r.addr, r.T, r.comp)
+			return env.load(r.addr, r.T, r.comp)
 		}
 		return env.evalValueSel(x)
 	case "slice":
@@ -321,7 +358,7 @@ func (env *SpecEnv) eval(x *SExpr) *Val {
 			hi = env.eval(x.Args[2]).term()
 		}
 		k := sizeOf(elemType(s.T))
-		return &Val{T: s.T, K: KSlice, S: []string{fmt.Sprintf("(+ %s (* %d %s))", s.S[0], k, lo), app("-", hi, lo), app("-", s.S[2], lo)}}
+		return &Val{T: s.T, K: KSlice, S: []string{elemAddr(s.S[0], k, lo), app("-", hi, lo), app("-", s.S[2], lo)}}
 	case "call":
 		return env.evalCall(x)
 	case "quant":
@@ -339,6 +376,7 @@ func (env *SpecEnv) evalQuant(x *SExpr) *Val {
 	}
 	var decls []string
 	var guards []string
+	var bnames []string
 	n.depth = env.depth + 1
 	for i, name := range x.Vars {
 		vn := fmt.Sprintf("%s!b%d", name, env.e.s.n)
@@ -369,16 +407,106 @@ func (env *SpecEnv) evalQuant(x *SExpr) *Val {
 		}
 		n.bound[name] = v
 		decls = append(decls, fmt.Sprintf("(%s %s)", vn, sortS))
+		bnames = append(bnames, vn)
 	}
+	var qfacts []string
+	n.facts = &qfacts
+	var uses []idxUse
+	n.uses = &uses
 	body := n.eval(x.Args[0])
 	if body.K != KBool {
 		env.fail("quantifier body not boolean: %s", x)
 	}
-	b := body.S[0]
-	if x.Name == "forall" {
-		return boolVal(fmt.Sprintf("(forall (%s) %s)", strings.Join(decls, " "), implies(and(guards...), b)))
+	// change of variables: quantify over the element address instead of the index so that
+	// the select pattern is a plain variable (array property fragment; robust E-matching)
+	if len(bnames) == 1 && strings.HasPrefix(decls[0], "("+bnames[0]+" Int") {
+		vn := bnames[0]
+		for _, u := range uses {
+			if strings.Contains(u.ptr, vn) {
+				continue
+			}
+			e0, ok := affineRest(u.idx, vn)
+			if !ok {
+				continue
+			}
+			av := fmt.Sprintf("a!q%d", env.e.s.n)
+			env.e.s.n++
+			// idx = vn + e0  and addr = ptr + k*idx  =>  vn = (addr-ptr)/k - e0
+			q := fmt.Sprintf("(- %s %s)", av, u.ptr)
+			var extra []string
+			if u.k != 1 {
+				extra = append(extra, fmt.Sprintf("(= (mod %s %d) 0)", q, u.k))
+				q = fmt.Sprintf("(div %s %d)", q, u.k)
+			}
+			iexpr := q
+			if e0 != "0" {
+				iexpr = fmt.Sprintf("(- %s %s)", q, e0)
+			}
+			sub := func(t string) string {
+				t = strings.ReplaceAll(t, u.addr, av)
+				return strings.ReplaceAll(t, vn, iexpr)
+			}
+			body = boolVal(sub(body.S[0]))
+			for i := range guards {
+				guards[i] = sub(guards[i])
+			}
+			guards = append(guards, extra...)
+			for i := range qfacts {
+				qfacts[i] = sub(qfacts[i])
+			}
+			decls[0] = fmt.Sprintf("(%s Int)", av)
+			bnames[0] = av
+			break
+		}
 	}
-	return boolVal(fmt.Sprintf("(exists (%s) %s)", strings.Join(decls, " "), and(append(guards, b)...)))
+	b := body.S[0]
+	// well-typedness facts of memory read under the quantifier are global invariants:
+	// close them universally and hand them to the enclosing context
+	for _, f := range dedup(qfacts) {
+		dep := false
+		for _, bn := range bnames {
+			if strings.Contains(f, bn) {
+				dep = true
+			}
+		}
+		if dep {
+			f = fmt.Sprintf("(forall (%s) %s)", strings.Join(decls, " "), f)
+		}
+		if env.facts != nil {
+			*env.facts = append(*env.facts, f)
+		}
+	}
+	qfacts = nil
+	if x.Name == "forall" {
+		return boolVal(fmt.Sprintf("(forall (%s) %s)", strings.Join(decls, " "), implies(and(append(guards, qfacts...)...), b)))
+	}
+	return boolVal(fmt.Sprintf("(exists (%s) %s)", strings.Join(decls, " "), and(append(append(guards, qfacts...), b)...)))
+}
+
+// affineRest: if idx is vn, (+ X vn), (+ vn X) or (- vn X) with X free of vn, return the
+// offset e0 such that idx = vn + e0.
+func affineRest(idx, vn string) (string, bool) {
+	if idx == vn {
+		return "0", true
+	}
+	args, op := sexprArgs(idx)
+	if len(args) != 2 {
+		return "", false
+	}
+	switch op {
+	case "+":
+		if args[0] == vn && !strings.Contains(args[1], vn) {
+			return args[1], true
+		}
+		if args[1] == vn && !strings.Contains(args[0], vn) {
+			return args[0], true
+		}
+	case "-":
+		if args[0] == vn && !strings.Contains(args[1], vn) {
+			return "(- " + args[1] + ")", true
+		}
+	}
+	return "", false
 }
 
 func (env *SpecEnv) evalBin(x *SExpr) *Val {
@@ -519,7 +647,7 @@ func (env *SpecEnv) ref(x *SExpr) *Ref {
 			base = b
 			if pt := derefType(base.T); pt != nil {
 				if _, isStruct := pt.Underlying().(*types.Struct); isStruct {
-					pv := e.loadAt(env.cur, base.addr, base.T, base.comp)
+					pv := env.load(base.addr, base.T, base.comp)
 					base = &Ref{pv.term(), pt, ""}
 				}
 			}
@@ -559,7 +687,7 @@ func (env *SpecEnv) ref(x *SExpr) *Ref {
 			cur = &Ref{addOff(cur.addr, fieldOff(stt, i)), ft, comp}
 			// embedded pointer: load and continue
 			if pt := derefType(ft); pt != nil && i != path[len(path)-1] {
-				pv := e.loadAt(env.cur, cur.addr, ft, cur.comp)
+				pv := env.load(cur.addr, ft, cur.comp)
 				cur = &Ref{pv.term(), pt, ""}
 			}
 		}
@@ -575,9 +703,9 @@ func (env *SpecEnv) ref(x *SExpr) *Ref {
 						comp = ""
 					}
 				}
-				return &Ref{fmt.Sprintf("(+ %s (* %d %s))", b.addr, sizeOf(at.Elem()), i), at.Elem(), comp}
+				return &Ref{elemAddr(b.addr, sizeOf(at.Elem()), i), at.Elem(), comp}
 			}
-			sv = e.loadAt(env.cur, b.addr, b.T, b.comp)
+			sv = env.load(b.addr, b.T, b.comp)
 		} else {
 			sv = env.evalOrNil(x.Args[0])
 		}
@@ -586,7 +714,11 @@ func (env *SpecEnv) ref(x *SExpr) *Ref {
 		}
 		et := elemType(sv.T)
 		i := env.eval(x.Args[1]).term()
-		return &Ref{fmt.Sprintf("(+ %s (* %d %s))", sv.S[0], sizeOf(et), i), et, ""}
+		ad := elemAddr(sv.S[0], sizeOf(et), i)
+		if env.uses != nil {
+			*env.uses = append(*env.uses, idxUse{sv.S[0], sizeOf(et), i, ad})
+		}
+		return &Ref{ad, et, ""}
 	}
 	return nil
 }
@@ -972,7 +1104,7 @@ func (e *Enc) evalModTarget(x *SExpr, env *SpecEnv) []modTarget {
 					continue
 				}
 				seen[lf.suffix] = true
-				out = append(out, modTarget{comp: lf.suffix, sort: lf.sort, kind: "range", addr: s.S[0], n: fmt.Sprintf("(* %d %s)", sizeOf(et), s.S[2])})
+				out = append(out, modTarget{comp: lf.suffix, sort: lf.sort, kind: "range", addr: s.S[0], n: mulK(sizeOf(et), s.S[2])})
 			}
 			return out
 		case "entries":
